@@ -12,12 +12,19 @@ RULE = ("random well-formed textgrids (1-3 interval/point tiers, 0-4 entries; la
         "uniform up to 1e15; within one tier distinct times differ by >= 1e-6 so that no sliver is absorbed) x 4 formats x "
         "includeBlankSpaces x includeEmptyIntervals; a separate keyword stream puts the formats' own keywords into labels and "
         "names (known finding A10). Each case: save through a real file, open the file, compare, save the reopened textgrid and "
-        "compare the text; the text and the parse are also compared with the Lean emitter / parser models. "
+        "compare the text; the text and the parse are also compared with the Lean emitter / parser models - for every textgrid "
+        "also both JSON texts (json.dumps model) and what parseTextgridStr reads from them and from an independently written "
+        "JSON document with the same content (other key order, white space, \\u escapes, numeral styles, extra/duplicate keys). "
         "non-trivial = the textgrid has at least one entry")
 TRUSTED = ["oracle: field-by-field comparison in Python (harness/props/C01.py:oracle); CPython repr/float/json; UTF-8 file I/O",
            "hypothesis hnum of C01.parseShort_emit (every rendered time is a NumWord: non-empty, one line, no quote, no "
            "surrounding whitespace) is sampled on every time of every case (oracle clause 'numword'); likewise hypothesis hnum of "
-           "C01.parseLong_emit (LongNum: the numeral matches [\\d.]+(?:[eE][-+]?\\d+)? entirely; oracle clause 'longnum')"]
+           "C01.parseLong_emit (LongNum: the numeral matches [\\d.]+(?:[eE][-+]?\\d+)? entirely; oracle clause 'longnum'); likewise "
+           "hypothesis hnum of C02.decode_json_full / parseAny_json_full (JsonNum: float.__repr__ of the time is a number of the JSON "
+           "grammar; oracle clause 'jsonnum')",
+           "CPython's json module (json.dumps / json.loads) is trusted as a component and compared on every case with its Lean model: "
+           "the written JSON text byte for byte with Json.render (op emitjson), the reader with Json.parse + tgOfJson on praatio-written, "
+           "independently written, damaged and handwritten documents (ops parsejson, u_jsonstr, u_jsonnum, u_jsondoc)"]
 ASSUMPTIONS = ["labels and names contain no carriage return; names non-empty, single-line, trimmed",
                "intervals and gaps are at least 1e-6 long (sliver absorption is C04's subject)"]
 
@@ -32,6 +39,13 @@ def longnum_ok(w):
     the long-format reader's numeral pattern entirely"""
     import re
     return re.fullmatch(r"[\d.]+(?:[eE][-+]?\d+)?", w) is not None
+
+
+def jsonnum_ok(w):
+    """hypothesis `hnum` of C02.decode_json_full / decode_json_simple / parseAny_json_* (lean/PraatModel/Props/C02Json.lean):
+    `JsonNum`, i.e. the numeral json.dumps writes for the time is a number of the JSON grammar (RFC 8259), entirely"""
+    import re
+    return re.fullmatch(r"-?(0|[1-9][0-9]*)(\.[0-9]+)?([eE][-+]?[0-9]+)?", w) is not None
 
 
 def times_of(g):
@@ -116,6 +130,8 @@ def oracle(c, r):
             return Failure(dict(sig, clause="numword"), f"numToStr({x!r}) = {w!r} is not a NumWord")
         if not longnum_ok(w):
             return Failure(dict(sig, clause="longnum"), f"numToStr({x!r}) = {w!r} is not a LongNum")
+        if not jsonnum_ok(iomodel.numeral(x)):
+            return Failure(dict(sig, clause="jsonnum"), f"json.dumps({x!r}) = {iomodel.numeral(x)!r} is not a JSON number")
     if r["save"][0] == "err":
         return Failure(dict(sig, clause="save", exc=r["save"][1]), f"save raised {r['save'][1]}")
     if r["open"][0] == "err":
@@ -214,6 +230,105 @@ def corpus():
                                         {"k": "I", "name": "i", "es": [[1.0, 2.9999999999999996, 'a"\nb']], "lo": 0.0, "hi": 5.0}]}
     for fmt in ioops.FORMATS:
         yield {"op": "roundtrip", "tg": g6, "fmt": fmt, "blanks": True, "iei": True}
+    yield from json_corpus()
+
+
+HOSTILE = 'q"t\\b\nnl\ttab' + chr(1) + chr(0x1f) + chr(0x7f) + chr(0xe9) + chr(0x2028) + chr(0x2029) + chr(0x1d11e) + "/</script>"
+
+
+def json_corpus():
+    """fixed JSON cases: hostile labels; Python ints among the floats (textgrid span, overrides, fillers made from them); the
+    dictionary semantics of the simplified format; handwritten documents; every control character"""
+    h = {"lo": 0.0, "hi": 5.0, "tiers": [{"k": "I", "name": 'n"\\' + chr(0xe9), "es": [[1e-05, 1.0, HOSTILE], [2.0, 3.5, "\\u0041"]], "lo": 0.0, "hi": 5.0},
+                                       {"k": "P", "name": chr(0x1d11e), "es": [[1.0, HOSTILE], [2.5, ""]], "lo": 0.0, "hi": 5.0}]}
+    for fmt in ("json", "textgrid_json"):
+        for blanks in (True, False):
+            yield {"op": "emitjson", "tg": h, "fmt": fmt, "blanks": blanks, "minlen": 1e-8}
+            yield {"op": "emitjson", "tg": h, "fmt": fmt, "blanks": blanks, "min": 0, "max": 7, "minlen": 1e-8}           # int overrides
+            yield {"op": "emitjson", "tg": h, "fmt": fmt, "blanks": blanks, "min": -0.0, "max": 1e22, "minlen": 1e-8}
+            yield {"op": "emitjson", "tg": dict(h, lo=0, hi=5), "fmt": fmt, "blanks": blanks, "minlen": 1e-8}             # int span
+            yield {"op": "emitjson", "tg": dict(h, lo=0, hi=5), "fmt": fmt, "blanks": blanks, "max": 5.0, "minlen": None}
+            yield {"op": "emitjson", "tg": h, "fmt": fmt, "blanks": blanks, "min": 0, "max": 3, "minlen": 1e-8}           # ParsingError
+        yield {"op": "roundtrip", "tg": h, "fmt": fmt, "blanks": True, "iei": True}
+        yield {"op": "roundtrip", "tg": h, "fmt": fmt, "blanks": False, "iei": False}
+    # an int override that starts a sliver: `Interval(minTimestamp, end, label)` of _removeUltrashortIntervals carries the int on
+    sl = {"lo": 0.0, "hi": 5.0, "tiers": [{"k": "I", "name": "a", "es": [[1e-09, 2.0, "x"], [2.0, 4.999999999, "y"]], "lo": 0.0, "hi": 5.0}]}
+    for fmt in ("json", "textgrid_json"):
+        yield {"op": "emitjson", "tg": sl, "fmt": fmt, "blanks": True, "min": 0, "max": 5, "minlen": 1e-8}
+        yield {"op": "emitjson", "tg": sl, "fmt": fmt, "blanks": True, "min": 0, "max": 5, "minlen": None}
+    # the simplified format is a dict keyed by tier name: a repeated name keeps its first place and takes the last tier
+    d = {"lo": 0.0, "hi": 5.0, "tiers": [{"k": "I", "name": "a", "es": [[1.0, 2.0, "x"]], "lo": 0.0, "hi": 5.0},
+                                       {"k": "P", "name": "b", "es": [[1.0, "m"]], "lo": 0.0, "hi": 5.0},
+                                       {"k": "P", "name": "a", "es": [[3.0, "z"]], "lo": 0.0, "hi": 5.0}]}
+    for fmt in ("json", "textgrid_json"):
+        yield {"op": "emitjson", "tg": d, "fmt": fmt, "blanks": False, "minlen": 1e-8, "rawdict": True}
+    for text in JSON_TEXTS:
+        for iei in (True, False):
+            yield {"op": "parsejson", "text": text, "iei": iei}
+    for i in list(range(0x20)) + [0x22, 0x2f, 0x5c, 0x7f, 0x80, 0xa0, 0x2028, 0x2029, 0xfeff, 0xffff, 0x10000, 0x1d11e, 0x10ffff]:
+        yield {"op": "u_jsonstr", "s": chr(i)}
+        yield {"op": "u_jsonstr", "s": "a" + chr(i) + chr(i) + "b"}
+    yield {"op": "u_jsonstr", "s": ""}
+    yield {"op": "u_jsonstr", "s": HOSTILE}
+    yield {"op": "u_jsonstr", "s": "".join(chr(i) for i in range(0x30))}
+    for w in ioops.NUM_WORDS:
+        yield {"op": "u_jsonnum", "s": w}
+    for t in JSON_DOCS:
+        yield {"op": "u_jsondoc", "s": t}
+
+
+# handwritten documents: README examples, other key orders and white space, escapes, duplicates, both-schema mixes, off-schema and
+# invalid ones
+JSON_TEXTS = [
+    '{"start": 0.0, "end": 1.8, "tiers": {"phone": {"type": "IntervalTier", "entries": [[0.0, 0.3, ""], [0.3, 0.38, "m"]]}, '
+    '"pitch": {"type": "TextTier", "entries": [[0.32, "120"], [0.37, "85"]]}}}',
+    '{\n    "xmin": 0.0,\n    "xmax": 1.8,\n    "tiers": [\n        {\n            "class": "IntervalTier",\n            "name": "phone",\n'
+    '            "xmin": 0.0,\n            "xmax": 1.8,\n            "entries": [[0.0, 0.3, ""], [0.3, 0.38, "m"]]\n        },\n        {\n'
+    '            "class": "TextTier",\n            "name": "pitch",\n            "xmin": 0.0,\n            "xmax": 1.8,\n'
+    '            "entries": [[0.32, "120"], [0.37, "85"]]\n        }\n    ]\n}\n',
+    '{"tiers":[{"entries":[[1,2,"\\u00e9\\ud834\\udd1e\\/\\"\\\\\\b\\f\\n\\r\\t\\u0001"]],"xmax":5,"xmin":0,"name":"\\u0061\\u0041","class":"IntervalTier"}],"xmax":5E0,"xmin":-0}',
+    '{"end":2.50e+0,"tiers":{"b":{"entries":[[1,"x"]],"type":"TextTier"},"a":{"entries":[],"type":"IntervalTier"},'
+    '"b":{"entries":[[2,"y"],[3,""]],"type":"TextTier"}},"start":0,"start":1}',
+    '\t{"xmin":0,"xmax":1,"tiers":[]}\r\n',
+    '{"start":0,"end":1,"tiers":{}}',
+    '{"start":0,"end":1,"xmin":3,"xmax":4,"tiers":{"t":{"type":"TextTier","entries":[[0.5,"p"]],"class":"IntervalTier","name":"other"}}}',
+    '{"xmin":0,"xmax":1,"tiers":[{"class":"TextTier","name":"start","xmin":0,"xmax":1,"entries":[[0.5,"start"]]}]}',
+    '{"xmin":0,"xmax":1e400,"tiers":[{"class":"TextTier","name":"n","xmin":NaN,"xmax":Infinity,"entries":[[-Infinity,"x"]]}]}',
+    '{"xmin":0,"xmax":1,"tiers":[{"class":"TextTier","name":"n","xmin":0,"xmax":1,"entries":[[0.5,"p"]],"extra":{"a":[1,2,{"b":null}]}}],"z":true}',
+    # off the schemas (valid JSON)
+    '{"xmin":0,"xmax":1}', '{"xmin":0,"tiers":[]}', '{"start":0,"tiers":{}}', '{"start":0,"end":1,"tiers":[]}', '{"xmin":0,"xmax":1,"tiers":{}}',
+    '[]', '[1,2]', '3', '"start"', 'null', 'true', '{}',
+    '{"xmin":"0","xmax":1,"tiers":[]}', '{"xmin":true,"xmax":1,"tiers":[]}', '{"xmin":null,"xmax":1,"tiers":[]}',
+    '{"xmin":0,"xmax":1,"tiers":[{"class":"Foo","name":"n","xmin":0,"xmax":1,"entries":[]}]}',
+    '{"xmin":0,"xmax":1,"tiers":[{"class":"IntervalTier","name":"n","xmin":0,"xmax":1,"entries":[[0.5,"p"]]}]}',
+    '{"xmin":0,"xmax":1,"tiers":[{"class":"TextTier","name":"n","xmin":0,"xmax":1,"entries":[[0.5,0.6,"p"]]}]}',
+    '{"xmin":0,"xmax":1,"tiers":[{"class":"TextTier","name":"n","xmin":0,"xmax":1,"entries":[[0.5,7]]}]}',
+    '{"xmin":0,"xmax":1,"tiers":[{"class":"TextTier","name":"n","xmin":0,"xmax":1,"entries":[["0.5","p"]]}]}',
+    '{"xmin":0,"xmax":1,"tiers":[{"class":"TextTier","name":"n","xmin":0,"xmax":1,"entries":[[]]}]}',
+    '{"xmin":0,"xmax":1,"tiers":[{"class":"TextTier","name":"n","xmin":0,"xmax":1,"entries":[5]}]}',
+    '{"xmin":0,"xmax":1,"tiers":[{"class":"TextTier","name":"n","xmin":0,"xmax":1,"entries":{}}]}',
+    '{"xmin":0,"xmax":1,"tiers":[{"class":"TextTier","name":7,"xmin":0,"xmax":1,"entries":[]}]}',
+    '{"xmin":0,"xmax":1,"tiers":[{"class":"TextTier","xmin":0,"xmax":1,"entries":[]}]}',
+    '{"xmin":0,"xmax":1,"tiers":[{"class":"TextTier","name":"n","xmin":0,"xmax":1}]}',
+    '{"xmin":0,"xmax":1,"tiers":[[]]}', '{"xmin":0,"xmax":1,"tiers":[null]}',
+    '{"start":0,"end":1,"tiers":{"t":{"type":"TextTier"}}}', '{"start":0,"end":1,"tiers":{"t":{"entries":[]}}}', '{"start":0,"end":1,"tiers":{"t":[]}}',
+    '{"start":0,"end":1,"tiers":{"t":{"type":"Foo","entries":[]}}}', '{"start":"0","end":1,"tiers":{}}', '{"start":null,"end":1,"tiers":{}}',
+    # not JSON: the text readers take over
+    '{"xmin":0,"xmax":1,"tiers":[],}', '{"xmin":0,"xmax":1,"tiers":[]', "{'xmin':0,'xmax':1,'tiers':[]}", '{"xmin":01,"xmax":1,"tiers":[]}',
+    '{"xmin":0,"xmax":1,"tiers":[]} x', chr(0xfeff) + '{"xmin":0,"xmax":1,"tiers":[]}', '{"xmin":0,"xmax":1.,"tiers":[]}', '{"xmin":.5,"xmax":1,"tiers":[]}',
+    '{"xmin":0,"xmax":1,"tiers":[{"class":"TextTier","name":"a\nb","xmin":0,"xmax":1,"entries":[]}]}', '{"xmin":0,"xmax":+1,"tiers":[]}',
+    '{"xmin":0,"xmax":1,"tiers":[{"class":"TextTier","name":"a\\x","xmin":0,"xmax":1,"entries":[]}]}',
+    '{"xmin":0,"xmax":1,"tiers":[{"class":"TextTier","name":"\\u12g4","xmin":0,"xmax":1,"entries":[]}]}',
+    '{"xmin":0,"xmax":1,"tiers":[{"class":"TextTier","name":"\\ud834\\u12","xmin":0,"xmax":1,"entries":[]}]}',
+    '', ' ', '{', 'nul', '// c\n{}', '{"a":1 "b":2}', '[1 2]', '{"xmin" 0}', '{1:2}', 'tru', 'falsey', '-', '-I', 'Infinit', 'Na',
+]
+
+JSON_DOCS = ['{"a": [1, 2.5e+3, "x"], "a": null, "b": {"c": [[], {}, [[]]]}}', ' [ ] ', '{ }', '[[[[[[1]]]]]]', '"\\u00e9\\ud834\\udd1e\\/"', '"\\uD834\\uDD1E"',
+             '"\\ud7ff\\ue000\\uffff\\u0000"', '"\\u00E9\\u00e9"', '-0', '-0.0', '0', '1E5', '[NaN, Infinity, -Infinity]', '[1,2,]', '[,1]', '{"a":1,}', '{,}', '[1,,2]', '{"a"}',
+             '{"a":}', '[1}', '{"a":1]', '"abc', '"a\\', '"a\\u12', '"\\u"', '"\\ud834\\n"', 'nulll', 'truefalse', '1 2', '1,2', '[1] [2]', '01', '-01', '1.', '.5', '1e', '1e+',
+             '[-]', '[1.5.5]', '[1e5e5]', '["a" "b"]', '{"a":1 ,"b" :2 }', '\n\t\r [\n1\t,\r2 ]\n', '\f[1]', '[1]\v', chr(0xa0) + '[1]', '[1' + chr(0x2028) + ']',
+             '"' + chr(0x7f) + chr(0x2028) + chr(0x1d11e) + '"', '"' + chr(0x1f) + '"', '"\t"', '{"k": "v", "k": "w", "K": "x"}', '[true,false,null]', '[tru]', '[nul]', 'True',
+             'None', "'a'", '{a:1}', '[1e-05, 1e+22, 5e-324, 1.7976931348623157e+308, 123456789012345678901234567890]']
 
 
 def gen(rnd, tier):
@@ -222,8 +337,24 @@ def gen(rnd, tier):
         yield from derived(c, rnd)
 
 
+def json_derived(g, blanks, mn, mx, iei, rnd):
+    """the JSON side of one textgrid, both formats: praatio's text against the Lean emitter (json.dumps model), what
+    parseTextgridStr makes of that text and of an independently written document with the same content (other key order, white
+    space, escapes, numeral styles, extra and duplicate keys) against the Lean JSON reader, and now and then a damaged text"""
+    for fmt in ("json", "textgrid_json"):
+        yield {"op": "emitjson", "tg": g, "fmt": fmt, "blanks": blanks, "min": mn, "max": mx, "minlen": 1e-8}
+        r = ioops.save_text(g, fmt, blanks, mn, mx, via_file=False)
+        if r[0] == "ok":
+            yield {"op": "parsejson", "text": r[1], "iei": iei}
+            if rnd.random() < 0.1:
+                yield {"op": "parsejson", "text": ioops.json_break(r[1], rnd), "iei": iei}
+    fmt = rnd.choice(["json", "textgrid_json"])
+    yield {"op": "parsejson", "text": ioops.json_variant(g, fmt, rnd), "iei": rnd.random() < 0.5}
+
+
 def derived(c, rnd):
     """model-correspondence cases derived from one round-trip case: the emitted text and its parse"""
+    yield from json_derived(c["tg"], c["blanks"], None, None, c["iei"], rnd)
     if c["fmt"] not in ("short_textgrid", "long_textgrid"):
         return
     kw = c.get("stream") == "keyword"
